@@ -162,7 +162,78 @@ pub fn check_seq(m: &Model, c: &SeqCase) -> CheckResult {
 }
 
 /// C06: a valid prefix, then one fault.
+/// The connection is lost for writing: `w` complete packets of the client are accepted (w = 0: not even the command; w = j: the
+/// command and the acknowledgements of replies 1..j-1), the next write fails with BrokenPipe. `c.replies` is a whole
+/// well-formed script. Expected: the replies acknowledged before (in order), then exactly one error, then the end - and no
+/// further write attempt.
+pub fn check_write_fault(m: &Model, c: &SeqCase, w: usize) -> CheckResult {
+    let f = Fault { pos: w, kind: "write-fails".into(), bytes: String::new() };
+    let input = json!({"case": c, "fault": f});
+    let Some(s) = m.seq(&c.seq) else { return Ok(()) };
+    let replies: Vec<Vec<u8>> = c.replies.iter().map(|h| unhex(h)).collect();
+    if w > replies.len() || replies.is_empty() {
+        return Ok(());
+    }
+    for (k, r) in replies.iter().enumerate() {
+        if m.expected_item(s, r).is_none() || (m.is_final(s, r[0], r[1]) != (k + 1 == replies.len())) {
+            return Ok(());
+        }
+    }
+    let mut script = vec![ACK.to_vec()];
+    script.extend(replies.iter().cloned());
+    let mut peer = Peer::scripted(script, vec![], c.chunks.clone());
+    peer.fail_writes_after = Some(w);
+    let cmd = unhex(&c.cmd);
+    let run = guard(|| (s.run)(&cmd, peer, replies.len() + 4)).map_err(|p| Violation::new("fault", sig("C06", &c.seq, "panic"), p, input.clone()))?;
+    if run.bad_command.is_some() {
+        return Ok(());
+    }
+    let v = |kind: &str, detail: String| Err(Violation::new("fault", format!("C06 seq={} fault=write-fails kind={kind}", c.seq), detail, input.clone()));
+    let show = |i: &Option<Result<String, String>>| match i {
+        None => "None".to_string(),
+        Some(Ok(d)) => format!("Ok({})", clip(d, 120)),
+        Some(Err(e)) => format!("Err({})", clip(e, 120)),
+    };
+    let items: Vec<&Option<Result<String, String>>> = run.snaps.iter().map(|s| &s.item).collect();
+    let listing = || items.iter().map(|i| show(i)).collect::<Vec<_>>().join(", ");
+    let acked = w.saturating_sub(1); // replies whose acknowledgement was accepted
+    for k in 0..acked {
+        let want = m.expected_item(s, &replies[k]).unwrap();
+        match items.get(k) {
+            Some(Some(Ok(d))) if *d == want => {}
+            _ => return v("wrong-item-before-fault", format!("write {w} fails; items [{}]; item {k} should be Ok({})", listing(), clip(&want, 120))),
+        }
+    }
+    // the reply whose acknowledgement could not be written may or may not be handed over; then exactly one error
+    let mut k = acked;
+    if w >= 1 {
+        if let Some(Some(Ok(d))) = items.get(k) {
+            if *d == m.expected_item(s, &replies[acked]).unwrap() {
+                k += 1;
+            }
+        }
+    }
+    match items.get(k) {
+        Some(Some(Err(_))) => {}
+        _ => return v("fault-not-reported", format!("the write of packet {w} of the client (0 = command, j = acknowledgement of reply j) failed with BrokenPipe; items [{}]: exactly one error is due after {acked} acknowledged replies", listing())),
+    }
+    for j in k + 1..k + 3 {
+        match items.get(j) {
+            Some(None) => {}
+            _ => return v("more-than-one-item-after-fault", format!("items [{}]", listing())),
+        }
+    }
+    let err_log = run.snaps[k].log_len;
+    if run.snaps[k + 1..].iter().any(|s| s.log_len != err_log) {
+        return v("io-after-error", "after reporting the error the stream performed I/O".into());
+    }
+    run.peer.with(|p| if p.failed_writes != 1 { v("wrote-after-fault", format!("{} write attempts were refused: after the first the client must not write again", p.failed_writes)) } else { Ok(()) })
+}
+
 pub fn check_fault(m: &Model, c: &SeqCase, f: &Fault) -> CheckResult {
+    if f.kind == "write-fails" {
+        return check_write_fault(m, c, f.pos);
+    }
     let input = json!({"case": c, "fault": f});
     let Some(s) = m.seq(&c.seq) else { return Ok(()) };
     let replies: Vec<Vec<u8>> = c.replies.iter().map(|h| unhex(h)).collect();
@@ -616,6 +687,36 @@ pub fn run_c06(tier: Tier) -> i32 {
         }
     });
     stats.merge(s);
+    // the connection is lost for writing: every whole script (prefix of <= 2 non-final replies + each final reply) x every
+    // write of the client (the command, each acknowledgement incl. the one of the final packet)
+    let s = ctx.shards("write-faults", m.seqs.len() as u64, |i, _seed, st| {
+        let s = &m.seqs[i as usize];
+        let owned = m.owned(s);
+        let non: Vec<usize> = (0..owned.len()).filter(|k| !m.is_final(s, owned[*k].0, owned[*k].1)).collect();
+        let fin: Vec<usize> = (0..owned.len()).filter(|k| m.is_final(s, owned[*k].0, owned[*k].1)).collect();
+        let cmd = hex(pools.pick(s.cmd, 0));
+        let mut pres: Vec<Vec<usize>> = vec![vec![]];
+        for a in &non {
+            pres.push(vec![*a]);
+            for b in &non {
+                pres.push(vec![*a, *b]);
+            }
+        }
+        for (pi, pre) in pres.iter().enumerate() {
+            for (fi, f) in fin.iter().enumerate() {
+                let mut script = pre.clone();
+                script.push(*f);
+                let replies: Vec<String> = script.iter().enumerate().map(|(j, v)| hex(pools.pick(owned[*v].3, ((pi * 13 + fi * 5 + j * 7) % 4096) as u16 * 16))).collect();
+                let c = SeqCase { seq: s.name.to_string(), cmd: cmd.clone(), replies: replies.clone(), trailing: String::new(), chunks: CHUNKINGS[(pi + fi) % 4].to_vec() };
+                for w in 0..=replies.len() {
+                    st.case(w >= 2, fnv(&serde_json::to_vec(&(&c, w, "write")).unwrap()));
+                    st.class(if w == 0 { "write-fails@command" } else if w == replies.len() { "write-fails@ack-of-final-packet" } else { "write-fails@ack-of-intermediate-packet" });
+                    ctx.record(check_write_fault(&m, &c, w), st);
+                }
+            }
+        }
+    });
+    stats.merge(s);
     // control-field sweep: at the acknowledgement position and instead of the first reply, every one of the 65 536
     // (class, instr) pairs outside the expected set (near misses such as 80 01 included) must be reported as an error
     let s = ctx.shards("control-field-sweep", m.seqs.len() as u64 * 2, |i, _seed, st| {
@@ -713,7 +814,7 @@ pub fn run_c06(tier: Tier) -> i32 {
     stats.exhaustive_parts = vec![format!("17 sequences x every valid reply-script prefix of length <= {depth} x every fault (4 NACK codes, foreign control fields incl. near misses of the expected ones, malformed bodies per reply kind, 5 truncations, EOF) at the position behind the prefix (and at the ack position)"), "17 sequences x all 65 536 control fields outside the expected set, at the acknowledgement position and instead of the first reply".into()];
     ctx.finish(
         stats,
-        "17 Sequence impls (and the firmware upload stream with 0..3 good data requests) x valid script prefixes x one fault {NACK 84 xx, packet outside the reply set, undecodable body inside the reply set, truncated packet + end of stream, end of stream} at the acknowledgement position or instead of reply j; exhaustive over prefixes up to the stated depth, then proptest prefixes up to 8 replies with random bodies. Oracle: Ok items for the replies before the fault, exactly one Err, then None twice without I/O, and no byte written once the faulty bytes were released. non-trivial = fault behind at least one acknowledged reply (position >= 2); distinct by (sequence, prefix bytes, fault)",
+        "17 Sequence impls (and the firmware upload stream with 0..3 good data requests) x valid script prefixes x one fault {NACK 84 xx, packet outside the reply set, undecodable body inside the reply set, truncated packet + end of stream, end of stream} at the acknowledgement position or instead of reply j, and the connection lost for writing (BrokenPipe) at the command and at every acknowledgement incl. the one of the final packet; exhaustive over prefixes up to the stated depth, then proptest prefixes up to 8 replies with random bodies. Oracle: Ok items for the replies before the fault, exactly one Err, then None twice without I/O, and no byte written once the faulty bytes were released. non-trivial = fault behind at least one acknowledged reply (position >= 2); distinct by (sequence, prefix bytes, fault)",
         &["'malformed' bodies are used only when both the reference decoder and the packet's own decoder reject them", "for the upload stream the faults are placed behind 0..3 answered data requests (props/c11.rs check_upload_fault)"],
         false,
     )
